@@ -24,6 +24,9 @@ pub struct Template {
     pub payload: usize,
     pub path: &'static str,
     pub ep: u32,
+    /// values of a Size1 (60) and a Size2 (28) option, if any
+    pub size1: Option<u32>,
+    pub size2: Option<u32>,
 }
 
 impl Template {
@@ -48,6 +51,12 @@ impl Template {
             Blk::Junk => options.push((27, vec![0xDE, 0xAD, 0xBE, 0xEF])),
             Blk::Val(n, m, s) => options.push((27, rb::enc(*n, *m, *s))),
         }
+        if let Some(v) = self.size1 {
+            options.push((60, refmodel::uint::enc(v as u128)));
+        }
+        if let Some(v) = self.size2 {
+            options.push((28, refmodel::uint::enc(v as u128)));
+        }
         options.sort_by_key(|o| o.0);
         let m = RefMsg {
             version: 1,
@@ -70,6 +79,8 @@ impl Template {
             .set("payload", self.payload)
             .set("path", self.path)
             .set("endpoint", self.ep)
+            .set("size1", self.size1)
+            .set("size2", self.size2)
     }
 }
 
@@ -239,7 +250,7 @@ fn depth1(ctx: &Ctx, rep: &mut Report) {
         |i, rep| {
             let d = decode(i, &radices);
             let (mtype, method, bloat, payload) = shapes[d[0] as usize];
-            let t = Template { mtype, method, bloat, b1: b1s[d[1] as usize].clone(), b2: b2s[d[2] as usize].clone(), payload, path: "h", ep: 1 };
+            let t = Template { mtype, method, bloat, b1: b1s[d[1] as usize].clone(), b2: b2s[d[2] as usize].clone(), payload, path: "h", ep: 1, size1: None, size2: None };
             let budget = budgets[d[3] as usize];
             let kind = d[4];
             let mut srv = Server::new(budget, Duration::from_secs(3600));
@@ -284,6 +295,8 @@ fn covering_templates(thorough: bool) -> Vec<Template> {
                     payload,
                     path: "h",
                     ep: 1,
+                    size1: None,
+                    size2: None,
                 });
             }
         }
@@ -334,7 +347,7 @@ fn depth2(ctx: &Ctx, rep: &mut Report) {
 }
 
 fn bfs_templates() -> Vec<Template> {
-    let t = |b1: Blk, b2: Blk, payload: usize, method: u8| Template { mtype: 0, method, bloat: 0, b1, b2, payload, path: "k", ep: 1 };
+    let t = |b1: Blk, b2: Blk, payload: usize, method: u8| Template { mtype: 0, method, bloat: 0, b1, b2, payload, path: "k", ep: 1, size1: None, size2: None };
     vec![
         t(Blk::Val(0, true, 0), Blk::None, 16, 3),
         t(Blk::Val(1, true, 0), Blk::None, 16, 3),
@@ -421,7 +434,7 @@ fn jump_after_large_buffer(ctx: &Ctx, rep: &mut Report) {
             let more = d[3] == 1;
             let plen = if d[4] == 0 { 1 } else { bs };
             let mut srv = Server::new(5000, Duration::from_secs(3600));
-            let mk = |num: u32, more: bool, len: usize| Template { mtype: 0, method: 3, bloat: 0, b1: Blk::Val(num, more, szx), b2: Blk::None, payload: len, path: "big", ep: 1 };
+            let mk = |num: u32, more: bool, len: usize| Template { mtype: 0, method: 3, bloat: 0, b1: Blk::Val(num, more, szx), b2: Blk::None, payload: len, path: "big", ep: 1, size1: None, size2: None };
             for j in 0..k {
                 let t = mk(j as u32, true, bs);
                 let before = srv.snapshot();
@@ -458,8 +471,48 @@ fn jump_after_large_buffer(ctx: &Ctx, rep: &mut Report) {
     );
 }
 
+/// Size1 / Size2 options announce a size; they must not make the handler reserve or accept more.
+fn size_options(ctx: &Ctx, rep: &mut Report) {
+    let b1s = [Blk::None, Blk::Val(0, true, 6), Blk::Val(1, true, 6), Blk::Val(0, false, 6), Blk::Val(3, false, 2)];
+    let sizes: [Option<u32>; 6] = [None, Some(0), Some(1000), Some(8 << 20), Some(u32::MAX), Some(17_000)];
+    let budgets = [64usize, 1152, 5000];
+    let radices = [b1s.len() as u64, sizes.len() as u64, sizes.len() as u64, budgets.len() as u64, 2, 2];
+    let n = product(&radices);
+    ctx.family(
+        rep,
+        "size-options",
+        "PUT with Block1 {none, 0/more/1024, 1/more/1024, 0/last/1024, 3/last/64} x Size1 {none,0,1000,17000,8 MiB,2^32-1} x Size2 {same} x budget {64,1152,5000} x payload {16,1024}, as a first request and after a first block: buffer growth stays bounded",
+        n,
+        true,
+        |i, rep| {
+            let d = decode(i, &radices);
+            let t = Template { mtype: 0, method: 3, bloat: 0, b1: b1s[d[0] as usize].clone(), b2: Blk::None, payload: if d[4] == 1 { 1024 } else { 16 }, path: "sz", ep: 1, size1: sizes[d[1] as usize], size2: sizes[d[2] as usize] };
+            let mut srv = Server::new(budgets[d[3] as usize], Duration::from_secs(3600));
+            if d[5] == 1 {
+                let first = Template { b1: Blk::Val(0, true, 6), payload: 1024, size1: None, size2: None, ..t.clone() };
+                srv.exchange(1, &first.bytes(44_000), &|_c| app_reply(0));
+            }
+            let before = srv.snapshot();
+            let x = srv.exchange(1, &t.bytes(44_001), &|_c| app_reply(4));
+            let after = srv.snapshot();
+            rep.visit(&after);
+            match judge(&t, &x, &before, &after) {
+                Ok(class) => {
+                    rep.count(class);
+                    rep.bucket(&("size", d[0], d[1], d[2], d[3], class));
+                }
+                Err((sig, what)) => {
+                    rep.count("violation");
+                    rep.violation(viol("size-options", i, sig, what, t.json().set("budget", budgets[d[3] as usize]).set("after_a_first_block", d[5] == 1)));
+                }
+            }
+        },
+    );
+}
+
 pub fn run(ctx: &Ctx, rep: &mut Report) {
     depth1(ctx, rep);
+    size_options(ctx, rep);
     jump_after_large_buffer(ctx, rep);
     depth2(ctx, rep);
     deep(ctx, rep);
